@@ -13,6 +13,10 @@
     * struct_alignment_agrees — the alignment a CTF reader computes for a structure from the text
       (maximum of `align(N)` and of the members' alignments, arrays → element, strings → 8) is the
       alignment `config.py` gives the structure and `cgen.py` aligns to;
+    * static_start_bits_are_dynamic — the bit offset within the current byte which `_OpBuilder` tracks at
+      generation time and passes to the macros as a constant start bit is, at every write of every tree it
+      can build, the run-time `ctx->at % 8` (Proofs/Oib.lean): serialising with the built tree = serialising
+      with all start bits computed at run time;
     * member_text_agrees — per member, the TSDL text states the size, alignment and signedness the
       serialiser uses, and the array lengths outermost first.
   `decode_serialize_partial` (DESIGN.md): the composition to whole records/packets (`decodePacket
@@ -22,6 +26,7 @@
   `tsdlStruct`) agree with each other and with the traced arguments.
 -/
 import BVM.Proofs.Read
+import BVM.Proofs.Oib
 namespace BVM
 
 theorem scalar_roundtrip (bo : ByteOrder) (vt : CInt) (buf : Buf) (base start len : Nat) (v : Int)
@@ -86,7 +91,38 @@ theorem carrier_holds_field (sg : Bool) (sz al : Nat) (h : sz ≤ 64) : sz ≤ (
 /-- array lengths are stated outermost first -/
 theorem lengths_outermost_first (n : Nat) (e : Elem) : elemLens (.sarr n e) = .lit n :: elemLens e := rfl
 
+/-- **the static start bits are the run-time ones**: `_OpBuilder` (cgen.py) tracks the bit offset within the
+    current byte at generation time and hands it to the bit-field macros as their start bit.  For every root
+    structure whose alignments are powers of two, every specialisation table, every argument list and every
+    state, serialising with the tree it builds equals serialising with the same tree in which every write
+    computes its start bit as `ctx->at % 8`: the tracked offset is never wrong — after alignments of 1, 2, 4
+    bits, after strings, across static and dynamic arrays of any length (zero included) and nesting. -/
+theorem static_start_bits_are_dynamic (env : SerEnv) (pfx : String) (args : Args) (spec : String → Option WSrc)
+    (S : Struct) (hS : ∃ j, S.align = 2 ^ j) (hms : ∀ m ∈ S.members, m.ft.AlOK ∧ specOK spec m) (s : SerSt) :
+    serRoot env pfx (buildRoot spec S) args s = serRoot env pfx (buildRoot spec S).erase args s :=
+  buildRoot_transparent env pfx args spec S hS hms s
+
 /-! Non-vacuity -/
+/-- a structure with a 5-bit element aligned on 8 in a dynamic array followed by a bit-packed member (the shape
+    on which a builder that keeps the element's offset after the loop goes wrong when the array is empty) meets
+    the hypotheses, and its tree does carry static offsets -/
+def c01S : Struct := ⟨1, [⟨"n", .el (.sc (.int false 8 8))⟩, ⟨"a", .darr "n" (.sc (.int false 5 8))⟩,
+                           ⟨"t", .el (.sc (.int false 4 1))⟩, ⟨"u", .el (.sc (.int false 3 2))⟩]⟩
+example : (∃ j, c01S.align = 2 ^ j) ∧ ∀ m ∈ c01S.members, m.ft.AlOK ∧ specOK specNone m := by
+  refine ⟨⟨3, by decide⟩, ?_⟩
+  intro m hm
+  simp only [c01S, List.mem_cons, List.mem_nil_iff, or_false] at hm
+  rcases hm with rfl | rfl | rfl | rfl
+  · exact ⟨⟨3, rfl⟩, by simp [specOK, specNone]⟩
+  · exact ⟨⟨3, rfl⟩, by simp [specOK]⟩
+  · exact ⟨⟨0, rfl⟩, by simp [specOK, specNone]⟩
+  · exact ⟨⟨1, rfl⟩, by simp [specOK, specNone]⟩
+example : (buildRoot specNone c01S).members =
+    [.el "n" (.leaf (some 8) ⟨.arg, .int false 8 8, some 0⟩),
+     .dloop "a" (some 8) "n" (.leaf (some 8) ⟨.arg, .int false 5 8, none⟩),
+     .el "t" (.leaf none ⟨.arg, .int false 4 1, none⟩),
+     .el "u" (.leaf (some 2) ⟨.arg, .int false 3 2, none⟩)] := by decide
+
 example : readBits .be (bfWrite .be ⟨16, true⟩ [0, 0, 0, 0] 1 3 13 (-2)) (8 * 1 + 3) 13 = 8190 := by decide
 example : signExtend true 13 8190 = -2 := by decide
 
@@ -102,4 +138,5 @@ example : signExtend true 13 8190 = -2 := by decide
 #print axioms member_text_agrees
 #print axioms carrier_holds_field
 #print axioms lengths_outermost_first
+#print axioms static_start_bits_are_dynamic
 end BVM
